@@ -77,7 +77,96 @@ hist_prop!(C13, "C13", owned = [RefusedUnchanged, Remap], focus = Edge, steps = 
     applicable = |t| t.any(|x| matches!(x, Ty::FlatVec(..) | Ty::FlatString(_) | Ty::FlexVec(..))),
     nontrivial = |o| o.refused_nonempty,
     rule = format!("case = (shape with a container, state driven towards the edge: spare room drawn from a small window, push_slice / push_str lengths of exactly remaining, remaining+1, remaining-1, multi-byte chars straddling the end, FlexVec pushes of items sized around the remaining region, items >= 255 bytes with u8 offsets, nested emplacers that do not fit); {}; owned clauses: when the operation is refused the decoded value and extent are identical to before, validate/re-map still succeed, and the following operations behave exactly as the model that never saw the failed call; non-trivial = an operation was refused on a non-empty container; distinct by (shape, initial value, buffer, history)", ORACLE),
-    assumptions = ["a refused operation is one the reference says does not fit; Ok results are judged by the normal step check"]);
+    assumptions = ["a refused operation is one the reference says does not fit; Ok results are judged by the normal step check"],
+    prelude = c13_wide_items);
+
+/// Deterministic scenarios for 16-bit offset types: the open last item is grown beyond 64 KiB, so the
+/// offset that would seal it is not representable and the next push must be refused without a trace.
+fn c13_wide_items(reg: &Registry, st: &mut Stats) -> CaseResult {
+    use crate::buf::Guarded;
+    use crate::glue::{Op, OpOut};
+    use crate::model;
+    for name in ["FlexVec<FlatString<le::U32>, le::U16>", "FlexVec<FlatString<u32>, u16>", "FlexVec<FlatVec<u8, be::U32>, be::U16>"] {
+        let Some(idx) = reg.by_name(name) else { continue };
+        let sh = &reg.shapes[idx];
+        let ty = sh.ty();
+        let item_ty = match ty {
+            Ty::FlexVec(t, _) => (**t).clone(),
+            _ => unreachable!(),
+        };
+        let big = |n: usize| -> Value {
+            match item_ty {
+                Ty::FlatString(_) => Value::Str("a".repeat(n)),
+                _ => Value::Vec(vec![Value::Scalar(7); n]),
+            }
+        };
+        for big_len in [65_520usize, 65_527, 65_528, 65_529, 65_535, 65_600] {
+            let n = 66_400;
+            let a = model::align(ty);
+            let mut buf = Guarded::new_aligned(n, a, 0, false);
+            buf.slice().fill(0x5a);
+            let init = Value::Flex(vec![big(3), big(big_len)]);
+            let addr = buf.addr();
+            let mut verdict: Result<(), String> = Ok(());
+            st.eval(1);
+            let r = lib(|| {
+                sh.new_in_place(buf.slice(), &init, &[], &mut |live| {
+                    let before = unsafe { std::slice::from_raw_parts(addr as *const u8, n) }.to_vec();
+                    let d0 = match model::decode(ty, &before, 0) {
+                        Ok(d) => d,
+                        Err(r) => {
+                            verdict = Err(format!("freshly emplaced value does not decode: {:?}", r.kind));
+                            return;
+                        }
+                    };
+                    // does the reference say the push fits? (sealing offset of the open last item must be < L::MAX)
+                    let os = model::data_offset(ty);
+                    let last_size = model::round_up(model::size_of(&item_ty, &big(big_len)), a);
+                    let stride = os + last_size;
+                    let l_max = match ty {
+                        Ty::FlexVec(_, l) => l.max(),
+                        _ => 0,
+                    };
+                    let fits = (stride as u128) < l_max;
+                    let res = live.mutate(&[], &Op::FPush(big(1), vec![]));
+                    let after = unsafe { std::slice::from_raw_parts(addr as *const u8, n) }.to_vec();
+                    match (fits, &res) {
+                        (true, OpOut::Done) => {
+                            match model::decode(ty, &after, 0) {
+                                Ok(d) if d.value == Value::Flex(vec![big(3), big(big_len), big(1)]) => {}
+                                Ok(d) => verdict = Err(format!("push succeeded but the vector now has {} items / wrong contents", d.value.items().len())),
+                                Err(r) => verdict = Err(format!("push succeeded but the bytes are invalid: {:?} at {}", r.kind, r.lo)),
+                            }
+                        }
+                        (false, OpOut::Err(..)) | (false, OpOut::Refused) => match model::decode(ty, &after, 0) {
+                            Ok(d) if d.value == d0.value && d.extent == d0.extent => {
+                                let out = live.read();
+                                if out.value != d0.value {
+                                    verdict = Err("after the refused push the accessors read a different value".into());
+                                }
+                            }
+                            Ok(_) => verdict = Err("the refused push changed the vector".into()),
+                            Err(r) => verdict = Err(format!("after the refused push the bytes are invalid: {:?} at {}", r.kind, r.lo)),
+                        },
+                        (f, r) => verdict = Err(format!("the reference says the push {} but the library returned {:?}", if f { "fits" } else { "does not fit (sealing offset not representable)" }, r)),
+                    }
+                })
+            });
+            let what = format!("{}: [3-element item, {}-element item] in {} bytes, then push of a 1-element item (sealing offset {} vs L::MAX 65535)", name, big_len, n, model::data_offset(ty) + model::round_up(model::size_of(&item_ty, &big(big_len)), a));
+            match r {
+                Err(p) => return Err(Violation { key: "panic".into(), msg: format!("{} panicked: {}", what, p) }),
+                Ok(Err(e)) => return Err(Violation { key: "harness-wide".into(), msg: format!("harness: {}: construction failed: {:?}", what, e) }),
+                Ok(Ok(())) => {}
+            }
+            if let Err(m) = verdict {
+                return Err(Violation { key: "wide-item".into(), msg: format!("{}: {}", what, m) });
+            }
+            st.nontrivial((name, big_len), || serde_json::json!({"scenario": "sealing offset around u16::MAX", "shape": name, "last_item_len": big_len}));
+        }
+    }
+    st.exhaustive_parts.push("16-bit offset types: open last item of 65 520 .. 65 600 elements, then one more push".into());
+    Ok(())
+}
 
 hist_prop!(C14, "C14", owned = [WriteSet], focus = Mixed, steps = 14,
     quick = 200_000, thorough = 3_200_000, tape = 400,
